@@ -16,12 +16,14 @@ pub fn run(p: &Prog, cfg: &Cfg, rep: &mut Report) {
         return;
     };
     // mostly well-formed data, 12% unknown ids, 10% invalid payloads
-    let strat = (reply_case_strategy(&p.model, 12, 12, 10), proptest::bool::ANY).prop_map(|(c, e)| (c, json!(e))).boxed();
-    run_cases(cfg, &p.model.id, "replies", strat, rep, |(case, via_entry): &(ReplyCase, Value), tally| {
-        let via_entry = via_entry.as_bool().unwrap_or(false);
-        let exp = run_reply_case(p, &rows, &methods, ids, case, "route", via_entry)?;
+    let strat = (reply_case_strategy(&p.model, 12, 12, 10), 0u8..3).prop_map(|(c, e)| (c, json!(e))).boxed();
+    run_cases(cfg, &p.model.id, "replies", strat, rep, |(case, via): &(ReplyCase, Value), tally| {
+        // older replay files stored a bool here (false = dispatch_reply, true = entry point)
+        let via = via.as_u64().map(|v| v as u8).unwrap_or(via.as_bool().unwrap_or(false) as u8);
+        let via = if via == 2 && !p.mt_entries.contains_key(&svmodel::Kind::Reply) { 1 } else { via };
+        let exp = run_reply_case(p, &rows, &methods, ids, case, "route", via)?;
         tally.class(if case.ok { "result:ok" } else { "result:err" });
-        tally.class(if via_entry { "via:entry-point" } else { "via:dispatch_reply" });
+        tally.class(["via:dispatch_reply", "via:entry-point", "via:multitest-contract-impl"][via.min(2) as usize]);
         let cls = match &exp {
             Expect::ErrNoHandler => "expect:rejected",
             Expect::ErrExact(_) => "expect:uncovered-failure-forwarded",
